@@ -230,8 +230,15 @@ func IsSameStep(startSample, endSample, step, duration, currT, nextT int64) bool
 	if currT < startSample && nextT > startSample {
 		return false
 	}
-	n1 := (currT - startSample) / step
-	n2 := (nextT - startSample) / step
+	// the window of a step ends at the step, inclusively: a sample after startSample belongs to the first
+	// step that is not before it (a sample ON a step belongs to that step, not to the following one).
+	stepOf := func(t int64) int64 {
+		if d := t - startSample; d > 0 {
+			return (d + step - 1) / step
+		}
+		return (t - startSample) / step
+	}
+	n1, n2 := stepOf(currT), stepOf(nextT)
 	if n1 != n2 {
 		return false
 	}
@@ -241,7 +248,8 @@ func IsSameStep(startSample, endSample, step, duration, currT, nextT int64) bool
 		r1, r2 = (startSample-currT)%step, (startSample-nextT)%step
 		return r1 <= duration && r2 <= duration
 	} else {
-		r1, r2 = (currT-startSample)%step, (nextT-startSample)%step
+		// both samples lie after startSample here: r is the distance from the previous step, in (0, step]
+		r1, r2 = currT-startSample-(n1-1)*step, nextT-startSample-(n2-1)*step
 		return r1 >= delta && r2 >= delta
 	}
 
